@@ -273,6 +273,40 @@ def read_map(data, name="x.pyc"):
     return sorted(seen)
 
 
+def object_map(data):
+    """{offset of an object's type code: reference-table slots taken before it} of the fault-free parse, obtained
+    by observing xdis's own unmarshaller (a subclass that only records).  Used solely to aim reference bombs;
+    returns {} when the tree under test no longer has that shape (the simulator then falls back to an estimate)."""
+    import io
+    import struct
+
+    try:
+        import xdis.unmarshal as um
+        from xdis.magics import magic_int2tuple
+
+        magic = struct.unpack("<H", data[:2])[0]
+        ver = magic_int2tuple(magic)
+        hl = 16 if (ver >= (3, 7) or magic == 3439) else 12 if (3200 <= magic < 20121 and ver >= (1, 5)) else 8
+        rec = {}
+        fp = io.BytesIO(data)
+        fp.seek(hl)
+
+        class Obs(um._VersionIndependentUnmarshaller):
+            def r_object(self, bytes_for_s=False):
+                rec[self.fp.tell()] = len(self.internObjects)
+                return um._VersionIndependentUnmarshaller.r_object(self, bytes_for_s=bytes_for_s)
+
+        old = sys.stderr
+        sys.stderr = _Sink()
+        try:
+            Obs(fp, magic, False, {}).load()
+        finally:
+            sys.stderr = old
+        return rec
+    except BaseException:
+        return {}
+
+
 class _Sink:
     def __init__(self):
         self.n = 0
